@@ -68,7 +68,8 @@ add("C02", "tlc-hexary", "the invariant root = Canon(contents), with Canon writt
     "encodings of exactly 31/32/33 bytes and the RLP long forms; every transition is replayed and the real root hash "
     "and root bytes compared with keccak(rlp(realize(Canon)))")
 add("C04", "tlc-hexary", "AppendOnly, Readable, PastRootsReadable and FailedWriteKeepsRoot are model checked over "
-    "interleaved histories of two non-pruning handles, batches, snapshots of every past root and a failing database "
+    "interleaved histories of two non-pruning handles, batches, snapshots of every past root, the first handle itself "
+    "pointed back at any past root (Checkout: root_hash assignment, forked histories) and a failing database "
     "write at every position; each transition is replayed with a write-failing dict and every past root is re-read "
     "through a fresh trie and through at_root")
 add("C05", "tlc-hexary", "CommitExact, AbortRestores and OpenBatchIsolated are action properties model checked over "
@@ -115,7 +116,8 @@ T_S2C = ("TLA+ specification model checked exhaustively with TLC and simulated; 
          "TLC-generated transition / state table (and random long behaviours) on the real code through its public API")
 add("C12", "tlc-binary", "Canonical (root = BCanon(contents)), MapOK, PrefixFree, RefusalRule (set refused exactly on a "
     "prefix conflict, refused calls change nothing, refused deletes would have changed nothing), AppendOnly and "
-    "PastRootsReadable are model checked over all histories of set / delete / delete_subtrie; every transition is "
+    "PastRootsReadable are model checked over all histories of set / delete / delete_subtrie (and Checkout: root_hash / "
+    "root_node pointed back at an earlier root); every transition is "
     "replayed and get / exists / root hash / exception class / earlier roots compared; generated histories of the real "
     "code (and, thorough, the recorded executions of the repository's own BinaryTrie tests) are validated by TLC "
     "against Trace_Binary.tla")
